@@ -5,6 +5,9 @@ func init() {
 		ID:    "C09",
 		Title: "Downstream failures are contained and reported, never masked",
 		Kernels: []Kernel{
+			{Name: "answer-of-any-size", Pkg: "queryer", Files: []string{"queryer/c09.go"}, Entry: "VerifAnswerOfAnySize", Mode: "seq",
+				Reach:     []string{"answer of symbolic size accepted"},
+				Functions: []string{"queryer.(*MultiOpQueryer).Query", "queryer.(*MultiOpQueryer).queryBatch", "queryer.(*MultiOpQueryer).fetch", "queryer.(*MultiOpQueryer).sendQueryRequest", "queryer.(*MultiOpQueryer).sendRequest"}},
 			{Name: "upload-answers", Pkg: "queryer", Files: []string{"queryer/c09.go"}, Entry: "VerifUploadAnswers", Mode: "seq",
 				Reach:     []string{"upload failure signal", "upload answer accepted"},
 				Functions: []string{"queryer.(*MultiOpQueryer).queryBatch", "queryer.(*MultiOpQueryer).fetchFile", "queryer.prepareMultipart", "queryer.(*MultiOpQueryer).sendMultipartRequest", "queryer.(*MultiOpQueryer).sendRequest"}},
@@ -16,6 +19,7 @@ func init() {
 				Reach: []string{"failure signal reported", "mutilation explored", "mutilated answer inside a batch"}, Functions: pipelineFns},
 		},
 		Assume: []string{
+			"answer-of-any-size: the HTTP client reads a healthy answer whose size is symbolic: pad in [0, 2^30] blanks precede the JSON text (never materialised; io.LimitReader is modelled over that count, other readers drop the blanks as a JSON decoder does)",
 			"net/http client = harness transport; encoding/json = abstract codec over the real decoder; the status code is a symbolic integer in [100,599], the answer length a symbolic integer in [0,n+2]",
 		},
 		Outside: []string{"socket-level behaviour, real HTTP framing, hangs inside net/http", "more than nmax requests per call"},
